@@ -9,20 +9,131 @@ from bitcoinlib.keys import HDKey
 NET = dict(network='bitcoin', witness_type='legacy')
 
 
-def key_of_fields(kind, k, c, d, f, i):
+def key_of_fields(kind, k, c, d, f, i, kw=NET):
     return HDKey(key=unhx(k), chain=unhx(c), depth=int(d), parent_fingerprint=unhx(f), child_index=int(i),
-                 is_private=(kind == 'prv'), **NET)
+                 is_private=(kind == 'prv'), **kw)
 
 
-def key_of_tok(t):
+def key_of_tok(t, kw=None):
+    """the start object; [kw] = the settings a session asks for (network, witness_type, multisig)"""
     p = t.split(':')
     if p[0] == 'seed':
-        return HDKey.from_seed(unhx(p[1]), **NET)
+        return HDKey.from_seed(unhx(p[1]), **(kw or NET))
     if p[0] == 'seedpub':
-        return HDKey.from_seed(unhx(p[1]), **NET).public()
+        return HDKey.from_seed(unhx(p[1]), **(kw or NET)).public()
+    if p[0] == 'phrase':
+        return HDKey.from_passphrase(unhx(p[1]).decode('utf8'), password=unhx(p[2]).decode('utf8'), **(kw or NET))
     if p[0] == 'xstr':
-        return HDKey(p[1])
-    return key_of_fields(*p)
+        return HDKey(p[1], **(kw or {}))
+    if p[0] == 'xwif':
+        k = HDKey.from_wif(p[1], **({'network': kw['network'], 'multisig': kw['multisig']} if kw else {}))
+        if kw:
+            k.witness_type = kw['witness_type']      # from_wif takes the witness type from the version bytes only
+        return k
+    return key_of_fields(*p, kw=(kw or NET))
+
+
+WT = {'l': 'legacy', 'p': 'p2sh-segwit', 's': 'segwit'}
+WT_REV = {v: k for k, v in WT.items()}
+
+
+def show_obj(k, w):
+    return '%s %s %s %d' % (show(k, w), k.network.name, WT_REV.get(k.witness_type, '?' + str(k.witness_type)),
+                            1 if k.multisig else 0)
+
+
+def session_op(obj, op):
+    """one call on [obj]; returns the object the call returns ([obj] itself for calls that return no key)"""
+    kind = op[0]
+    if kind == 'p':
+        path = unhx(op[1]).decode('ascii')
+        return obj.subkey_for_path(path.split('/') if op[2] == 'l' else path)
+    if kind == 'cpriv':
+        return obj.child_private(int(op[1]), hardened=(op[2] == '1'))
+    if kind == 'cpub':
+        return obj.child_public(int(op[1]))
+    if kind == 'pub':
+        return obj.public()
+    if kind == 'pm':
+        account, purpose = int(op[1]), (None if op[2] == '-' else int(op[2]))
+        multi = None if op[3] == '-' else op[3] == '1'
+        wit = None if op[4] == '-' else WT[op[4]]
+        if op[6] == 'mm':
+            return obj.public_master_multisig(account, purpose, wit, op[5] == '1')
+        return obj.public_master(account, purpose, multi, wit, op[5] == '1')
+    if kind == 'net':
+        obj.network_change(op[1])
+        return obj
+    if kind == 'exp':
+        which = op[1]
+        try:                                   # the exports only observe; what they print or raise is not the answer
+            if which == 'wif':
+                obj.wif()
+            elif which == 'wifpub':
+                obj.wif_public()
+            elif which == 'wifprv':
+                obj.wif_private()
+            elif which == 'wifkey':
+                obj.wif_key()
+            elif which == 'dict':
+                obj.as_dict()
+            elif which == 'dictprv':
+                obj.as_dict(include_private=True)
+            elif which == 'json':
+                obj.as_json(include_private=True)
+            elif which == 'repr':
+                repr(obj)
+            elif which == 'addr':
+                obj.address()
+            elif which == 'fp':
+                obj.fingerprint
+            elif which == 'hash':
+                hash(obj), obj.hash160, bytes(obj), obj.public_point()
+            elif which == 'wifidx':
+                obj.wif(is_private=(int(op[2]) % 2 == 1), child_index=int(op[2]))
+        except RecursionError:
+            raise
+        except Exception:
+            pass
+        return obj
+    raise ValueError('session op')
+
+
+def session(t):
+    cfg = t[2].split(',')
+    kw = dict(network=cfg[0], witness_type=WT[cfg[4]], multisig=(cfg[5] == '1'))
+    try:
+        slots = [key_of_tok(t[1], kw)]
+    except RecursionError:
+        raise
+    except Exception:
+        return 'ERR'
+    out = []
+    for st in t[3:]:
+        f = st.split(',')
+        slot, w, op = int(f[0]), f[1] == '1', f[2:]
+        obj = slots[slot] if slot < len(slots) else None
+        if obj is None:
+            slots.append(None)
+            out.append('T none R FAIL')
+            continue
+        try:
+            r = session_op(obj, op)
+        except RecursionError:
+            raise
+        except Exception:
+            r = None
+        if r is None:
+            slots.append(None)
+            res = 'FAIL'
+        elif r is obj:
+            slots.append(None)
+            res = 'SELF'
+        else:
+            slots.append(r)
+            res = 'NEW ' + show_obj(r, w)
+        out.append('T %s R %s' % (show_obj(obj, False), res))
+    return ' | '.join(out)
 
 
 def show(k, w):
@@ -48,6 +159,8 @@ def show(k, w):
 def dispatch(t):
     kind = t[0]
     w = t[-1] != '-'
+    if kind == 'sess':
+        return session(t)
     try:
         if kind == 'derive':
             k = key_of_tok(t[1])
@@ -62,6 +175,14 @@ def dispatch(t):
             return show(key_of_tok(t[1]).child_private(int(t[2]), hardened=(t[3] == '1')), w)
         if kind == 'cpub':
             return show(key_of_tok(t[1]).child_public(int(t[2])), w)
+        if kind == 'wifidx':
+            k = key_of_tok(t[1])
+            try:
+                r = k.wif(is_private=(t[3] == '1'), child_index=(None if t[2] == '-' else int(t[2])), witness_type='legacy',
+                          multisig=False)
+            except Exception:
+                r = 'ERR'
+            return '%s %d' % (r, k.child_index)
     except RecursionError:
         raise
     except Exception:
